@@ -8,6 +8,9 @@ TB = ("Trusted: Coq 8.16.1 kernel + vm_compute; no axioms declared (Print Assump
       "Zarith rationals, cross-checked against the in-Coq evaluation on every run. ")
 
 CLAIMED = {
+ "C01": dict(text="PARTIAL: the convergence theorem (global error <= K tol; global order q+1) is numerical analysis beyond reach; proved is the algebraic core of the local order condition (prediction = Taylor shift of the carried coefficients for every q; a zero innovation leaves the mean unchanged whatever gain/scale), and accuracy can otherwise only change if the exact-EKF (C02/C03), step-control (C06) or error-estimate (C07) correspondences break. The check measures exactness on polynomial solutions, observed order under grid halving and tolerance compliance of adaptive solves on a closed-form IVP family incl. tiny final remainders.",
+             note=TB + "Accuracy claims are measured (search), not proved; K = 60 is calibrated on the unchanged tree (worst ratio recorded in the evidence).",
+             tech="machine-checked proof in Coq (local order condition, partial) + accuracy search on closed-form IVPs"),
  "C02": dict(text="Refinement: the solver step functions (3 solvers x TS0/TS1 x 3 factorisations) are modelled in Coq at covariance level; theorems relate the preconditioned model step to the textbook EKF step; the model is tied to /repo by ONE-STEP REFINEMENT along implementation trajectories: every implementation state is converted exactly to rationals, advanced by the model, and compared with the implementation's next state (full mean/covariance/scales), then userfriendly_output.",
              note=TB + "QR-based square-root arithmetic is an oracle with contract R^T R = M^T M; float rounding is not modelled (tolerance 2e-7 relative to the marginal std).",
              tech="machine-checked proof in Coq (refinement to a textbook EKF) + one-step model-vs-implementation correspondence in exact rational arithmetic"),
